@@ -76,6 +76,47 @@ def gen_attrs(rng) -> dict:
     return a
 
 
+def gen_variant(rng, base: dict) -> dict:
+    """A style equal to ``base`` except for exactly one attribute: two styles that differ in one attribute only
+    are what exposes an attribute missing from (or conflated in) the saved-style fingerprint."""
+    a = dict(base)
+    k = rng.choice(["bg_color", "bg_color", "alignment", "text_wrap", "text_inset", "first_indent", "left_indent", "right_indent",
+                    "bold", "italic", "underline", "strikethrough", "font_color", "font_size", "font_name"])
+    if k == "bg_color":
+        cur = a.get("bg_color")
+        opts = [None, (0, 0, 0), (255, 255, 255), (1, 0, 0), (0, 0, 1)]
+        a.pop("bg_image", None)
+        new = rng.choice([o for o in opts if o != (tuple(cur) if cur else None)])
+        if new is None:
+            a.pop("bg_color", None)
+        else:
+            a["bg_color"] = new
+    elif k == "alignment":
+        h, v = a.get("alignment", ("auto", "top"))
+        if rng.random() < 0.5:
+            v = rng.choice([x for x in ["top", "middle", "bottom"] if x != v])
+        else:
+            h = rng.choice([x for x in ["left", "right", "center", "justified", "auto"] if x != h])
+        a["alignment"] = (h, v)
+    elif k == "text_wrap":
+        a["text_wrap"] = not a.get("text_wrap", True)
+    elif k in ("text_inset", "first_indent", "left_indent", "right_indent"):
+        cur = a.get(k, 4.0 if k == "text_inset" else 0.0)
+        a[k] = rng.choice([x for x in [0.0, 0.5, 1.0, 4.0, 4.5, 10.0] if x != cur])
+    elif k in ("bold", "italic", "underline", "strikethrough"):
+        a[k] = not a.get(k, False)
+    elif k == "font_color":
+        cur = tuple(a.get("font_color", (0, 0, 0)))
+        a["font_color"] = rng.choice([x for x in [(0, 0, 0), (255, 255, 255), (0, 0, 1), (254, 255, 255)] if x != cur])
+    elif k == "font_size":
+        cur = a.get("font_size", 11.0)
+        a["font_size"] = rng.choice([x for x in [10.0, 11.0, 11.5, 12.0] if x != cur])
+    else:
+        cur = a.get("font_name", "Helvetica Neue")
+        a["font_name"] = rng.choice([x for x in fonts() if x != cur])
+    return a
+
+
 def gen_border(g, rng, tm, d=0, s=0, t=0) -> dict:
     side = rng.choice(["top", "right", "bottom", "left"])
     o = {"op": "border", "d": d, "s": s, "t": t, "side": side, "r": g.index(tm.nrows), "c": g.index(tm.ncols),
@@ -122,7 +163,19 @@ def gen(seed: int, tier: str, idx=None):
         t = rng.randrange(len(m.sheets[0].tables))
         tm = m.sheets[0].tables[t]
         if kind == "add_style":
-            g.emit({"op": "add_style", "d": 0, "attrs": gen_attrs(rng), "name": rng.choice([None, None, "Bold " + str(rng.randrange(4)), "Ünï " + str(rng.randrange(3))])})
+            prev = list(m.styles.values())
+            if prev and rng.random() < 0.5:
+                # a near-duplicate of an existing style, applied right next to a cell that carries the original
+                base_name = rng.choice(list(m.styles))
+                g.emit({"op": "add_style", "d": 0, "attrs": gen_variant(rng, m.styles[base_name]), "name": None})
+                r0, c0 = g.index(tm.nrows), g.index(tm.ncols)
+                names_now = list(g.ms.docs[0].model.styles)
+                g.emit({"op": "set_style", "d": 0, "s": 0, "t": t, "r": r0, "c": c0, "style": names_now.index(base_name), "via": "set"})
+                g.emit({"op": "set_style", "d": 0, "s": 0, "t": t, "r": (r0 + 1) % tm.nrows, "c": c0, "style": len(names_now) - 1, "via": "set"})
+                if tm.ncols > 1:
+                    g.emit({"op": "set_style", "d": 0, "s": 0, "t": t, "r": r0, "c": (c0 + 1) % tm.ncols, "style": len(names_now) - 1, "via": "set"})
+            else:
+                g.emit({"op": "add_style", "d": 0, "attrs": gen_attrs(rng), "name": rng.choice([None, None, "Bold " + str(rng.randrange(4)), "Ünï " + str(rng.randrange(3))])})
         elif kind == "set_style":
             o = {"op": "set_style", "d": 0, "s": 0, "t": t, "r": g.index(tm.nrows), "c": g.index(tm.ncols), "style": rng.randrange(12),
                  "via": rng.choice(["set", "set", "name", "write"]), "nota": rng.choice(["rc", "a1"])}
